@@ -32,7 +32,7 @@ LEVEL_NOTE = (
     "Bounds: <= 4 factors, block grids <= 3x3, blocks <= 2x2, <= 3 infinite dimensions, total order <= 4. The known "
     "finding K2 class (two factors that are not mutual adjoints with hermitian=True) is excluded by construction."
 )
-TECHNIQUE = "property-based testing (Hypothesis) against a brute-force reference sum; call-log invariants"
+TECHNIQUE = "property-based testing (Hypothesis) against a brute-force reference sum; call-log invariants + coverage-guided fuzzing stage (atheris/libFuzzer driving the same strategy and oracle)"
 BUDGET = {"quick": 2500, "thorough": 80000}
 FUZZ = {"quick": 3200, "thorough": 160000}  # executions of the coverage-guided stage (vlib/fuzz.py)
 RULE = (
